@@ -1,17 +1,17 @@
 #!/bin/bash
 # Runs, for every seeded change under /verif/seeded, the quick check of the property it targets (plus extra checks given as
 # "<seed>:<prop>" arguments) on a scratch worktree and records the exit codes in /verif/seeded/matrix.txt
+# (four seeds at a time, four solver jobs each)
 cd /verif
 OUT=/verif/seeded/matrix.txt
-: > $OUT.tmp
 EXTRA="$@"
+LIST=$(mktemp)
 for d in seeded/*/; do
   id=$(basename $d); prop=${id%%_*}
   props="$prop"
   for e in $EXTRA; do [[ "$e" == $id:* ]] && props="$props ${e#*:}"; done
-  for p in $props; do
-    rc=$(timeout 1500 tools/try_patch.sh $d/patch.diff $p 2>&1 | grep '^exit=' | tail -1)
-    echo "$id $p $rc" | tee -a $OUT.tmp
-  done
-done
-mv $OUT.tmp $OUT
+  for p in $props; do echo "$id $p"; done
+done > $LIST
+cat $LIST | PYVC_JOBS=4 xargs -P 4 -L 1 bash -c 'rc=$(timeout 1800 tools/try_patch.sh seeded/$0/patch.diff $1 2>&1 | grep "^exit=" | tail -1); echo "$0 $1 $rc"' > $OUT.tmp
+sort $OUT.tmp > $OUT; rm -f $OUT.tmp $LIST
+cat $OUT
